@@ -291,6 +291,12 @@ func (g *gen) failStmt() Node {
 		w := g.cfg.Writers[g.r.Intn(len(g.cfg.Writers))]
 		return &RawFail{Src: fmt.Sprintf(`{{ %s: "ok%d", nosuch%d }}`, w, g.n, g.n), Positioned: true}
 	}
+	if g.inTry > 0 && g.r.Intn(5) == 0 {
+		// a Go run-time error (integer division by zero) raised by the evaluation itself: inside a try it is a failure of
+		// the body like any other (outside a try it would, by design, escape Execute as a panic: never generated there)
+		g.feat["fail-go-runtime-error"] = true
+		return &Print{E: Opaque{Src: []string{`len("ab") / len("")`, `len("abc") % len("")`}[g.r.Intn(2)], Fails: true}}
+	}
 	switch g.r.Intn(4) {
 	case 0:
 		return &Print{E: Opaque{Src: fmt.Sprintf("nosuch%d", g.n), Fails: true}}
